@@ -12,6 +12,7 @@ ap.add_argument('-only', default='')
 ap.add_argument('-limit', type=int, default=0)
 ap.add_argument('-ids', default='', help='comma list of mutant ids (as numbered after -only selection) to run')
 ap.add_argument('-append', action='store_true')
+ap.add_argument('-ops', default='', help='comma list of operators to keep')
 ap.add_argument('-neutral', action='store_true', help='behaviour-preserving single-site rewrites (mutate -neutral): every check must stay silent; no tests are run')
 ap.add_argument('-out', default='/verif/selftest/mutation/results.tsv')
 a = ap.parse_args()
@@ -26,6 +27,7 @@ muts = [json.loads(l) for l in subprocess.run(['/verif/bin/mutate'] + (['-neutra
 sel = []; g = 0
 for m in muts:
     if a.only and not any(o in m['file'] for o in a.only.split(',')): continue
+    if a.ops and m['op'] not in a.ops.split(','): continue
     if m['file'].endswith('gsm7encoding/gsm7.go') and not a.neutral:
         g += 1
         if g % a.gsm7_every: continue
